@@ -328,6 +328,32 @@ fn run_aabb_and_wallgeom(ctx: &Ctx) {
             }
         }
     }
+    // complementary triangles of one rectangle (same bounding box, different polygon), all centres coinciding:
+    // the coincident-centres fallback of the partition must keep both; rays on a grid over the rectangle
+    for k in [2usize, 3, 4, 31, 32, 40] {
+        for leaf in [1usize, 2, 30] {
+            let mut geoms: Vec<WallGeom> = vec![];
+            for i in 0..k {
+                let poly: Polygon = if i % 2 == 0 { vec![point![0.0, 0.0], point![4.0, 0.0], point![4.0, 3.0]] } else { vec![point![0.0, 0.0], point![4.0, 3.0], point![0.0, 3.0]] };
+                geoms.push(geom(90.0, 0.0, Some([1.0, 2.0, 0.5]), poly));
+            }
+            let bvh = BVH::build(geoms.clone(), leaf);
+            for gx in 0..10 {
+                for gz in 0..8 {
+                    let r = Ray::new(point![1.0 + 0.2 + gx as f32 * 0.4, -3.0, 0.5 + 0.19 + gz as f32 * 0.37], vector![0.0, 1.0, 0.0]);
+                    let a = bvh.intersects(&r).is_some();
+                    let b = geoms.iter().any(|g| g.intersects(&r).is_some());
+                    n += 1;
+                    if b {
+                        hits += 1;
+                    }
+                    if a != b {
+                        ctx.violation("bvh.intersects:differs-from-linear:equal-boxes-different-polygons", &format!("{} complementary triangles sharing one bounding box (leaf size {}): BVH says {} but testing every polygon says {}", k, leaf, a, b), json!({"kind": "bvh-triangles", "k": k, "leaf": leaf, "ray_origin": [r.origin.x, r.origin.y, r.origin.z]}));
+                    }
+                }
+            }
+        }
+    }
     ctx.eval(n);
     ctx.note("aabb_and_wallgeom", json!({"comparisons": n, "expected_hits": hits}));
 }
